@@ -5,6 +5,11 @@ ROOT = os.path.dirname(os.path.dirname(os.path.abspath(__file__)))
 BASE_OFF = "cd /repo && env -u BUIDL_VERIF_TRACE /venv/bin/python -m pytest -ra -q -p no:cacheprovider --timeout=900 --continue-on-collection-errors"
 
 CLAIMED = {
+ "C16": dict(
+   text="TLC proves by linearity of Core's descriptor checksum that every single-symbol error and every pair of symbol errors at most three positions apart -- all a one-character substitution can cause (its 5-bit symbol and its class-group symbol) -- is detected, for all value differences up to a maximal stream length. For random wallets with 1 <= m <= n <= 6 (SLIP-132 prefixes, account indexes to 2^31-2, both path notations) TLC rebuilds the descriptor text and checksum from the key records (Base58Check of the normalised xpub, sorting, layout, 40-bit polymod), checks the parse round trip, the address at (branch, offset) as P2WSH of the m-of-n script over the lexicographically sorted child keys (certified sha256, bech32), every permutation of supply order, receive/change disjointness, and decides single-character substitutions over the charset at every position of sampled descriptors.",
+   design="3/C16",
+   note="Trusted: TLC, Desc.tla (Core's descriptor checksum, BIP67-style sorting, BIP173), hashlib; child public keys come from HDPublicKey.child (C08). The '#' separator itself is outside 'body or checksum'. Wallets and substitution characters are sampled in the quick tier.",
+   technique="TLA+ descriptor specification: TLC model checking of checksum error detection + TLC re-derivation of recorded descriptor/address calls"),
  "C15": dict(
    text="TLC model-checks the threshold scheme over GF(256) (field arithmetic by definition) with one-byte secrets for every (k, n) up to a bound, dealt exactly as split_secret deals it: every set of at least k shares recovers the secret and the digest share, fewer refuse, the result does not depend on the subset; GF(256) axioms and the generator table. With randbits rebound to a recorded stream TLC re-derives every share mnemonic of generate_shares byte for byte (4-round Feistel from certified PBKDF2-HMAC-SHA256 rows, digest share from a certified HMAC row, Lagrange interpolation, header bit packing, RS1024 checksum); subsets (>= k, < k, mixed splits, wrong passphrase then right) are run through recover_mnemonic and decided; 1..3-word corruptions must be rejected; tables, interpolation, share codec and encryption are decided on random inputs.",
    design="3/C15",
